@@ -6,6 +6,7 @@ package sqlite
 
 // ---- token = session id || HMAC(secret, session id) (C18, C08) --------------------------
 //@ func sqlite.DB.sessionID
+//@   params db ctx
 //@   props C18 C08 C10(sweep)
 //@   sweep bounds,panic,make,nilmem
 //@   makelimit 1048576
@@ -19,6 +20,7 @@ package sqlite
 // read back from the secrets table on every use and nothing is cached in the DB
 // object, so tokens issued by one instance verify on every other instance of the file
 //@ func sqlite.DB.loadOrStoreSecret
+//@   params db ctx
 //@   props C18 C08 C10(sweep)
 //@   sweep bounds,panic,make,nilmem
 //@   modifies nothing
@@ -30,49 +32,60 @@ package sqlite
 
 // ---- accessors: no session, no state (C18, C08) ----------------------------------------------
 //@ func sqlite.DB.TO0SignNonce
+//@   params db ctx
 //@   props C18 C08 C10(sweep)
 //@   sweep bounds,panic,make,nilmem
 //@   ensures @session ? err == nil ==> ok
 //@ func sqlite.DB.TO1ProofNonce
+//@   params db ctx
 //@   props C18 C08 C10(sweep)
 //@   sweep bounds,panic,make,nilmem
 //@   ensures @session ? err == nil ==> ok
 //@ func sqlite.DB.GUID
+//@   params db ctx
 //@   props C18 C08 C10(sweep)
 //@   sweep bounds,panic,make,nilmem
 //@   ensures @session ? err == nil ==> ok
 //@ func sqlite.DB.ProveDeviceNonce
+//@   params db ctx
 //@   props C18 C08 C10(sweep)
 //@   sweep bounds,panic,make,nilmem
 //@   ensures @session ? err == nil ==> ok
 //@ func sqlite.DB.SetupDeviceNonce
+//@   params db ctx
 //@   props C18 C08 C10(sweep)
 //@   sweep bounds,panic,make,nilmem
 //@   ensures @session ? err == nil ==> ok
 //@ func sqlite.DB.ReplacementGUID
+//@   params db ctx
 //@   props C18 C08 C10(sweep)
 //@   sweep bounds,panic,make,nilmem
 //@   ensures @session ? err == nil ==> ok
 //@ func sqlite.DB.ReplacementHmac
+//@   params db ctx
 //@   props C18 C08 C10(sweep)
 //@   sweep bounds,panic,make,nilmem
 //@   ensures @session ? err == nil ==> ok
 //@ func sqlite.DB.SetTO0SignNonce
+//@   params db ctx nonce
 //@   props C18 C08
 //@   sweep bounds,nilmem
 //@   ensures @session ? err == nil ==> ok
 //@ func sqlite.DB.SetGUID
+//@   params db ctx guid
 //@   props C18 C08
 //@   sweep bounds,nilmem
 //@   ensures @session ? err == nil ==> ok
 //@ func sqlite.DB.InvalidateToken
+//@   params db ctx
 //@   props C18 C08
 //@   sweep bounds,nilmem
 //@   ensures @session ? err == nil ==> ok
 
 // ---- expiry of rendezvous blobs (C18, C07) ----------------------------------------------------
 //@ func sqlite.DB.RVBlob
-//@   props C18 C07 C10(sweep)
+//@   params db ctx guid
+//@   props C18 C07 C06 C10(sweep)
 //@   sweep bounds,panic,make,nilmem
 //@   callassert Unmarshal#1: @notexpired TimeAfter(lastnow(True()), UnixTime(exp.Int64)) == False()
 //@   callassert Unmarshal#1: @stored exp.Valid && !isnil(blob)
@@ -80,7 +93,8 @@ package sqlite
 
 // the expiry is stored in the unit RVBlob reads it in (Unix seconds of the given time)
 //@ func sqlite.DB.SetRVBlob
-//@   props C18 C07 C10(sweep)
+//@   params db ctx ov to1d exp
+//@   props C18 C07 C06 C10(sweep)
 //@   sweep bounds,panic,make,nilmem
 //@   callsites Unix 1
 //@   callsites insert 1
@@ -89,6 +103,7 @@ package sqlite
 
 // ---- voucher replacement: add first, remove second, compensate (C18, C03) -----------
 //@ func sqlite.DB.ReplaceVoucher
+//@   params db ctx guid ov
 //@   props C18 C03 C10(sweep)
 //@   sweep bounds,panic,make,nilmem
 //@   callsites remove 2
@@ -97,29 +112,36 @@ package sqlite
 //@   callassert remove#1: @afteradd added(ov) == True()
 
 //@ func sqlite.DB.AddVoucher
+//@   params db ctx ov
 //@   nopaths
 //@   modifies nothing
 //@   ghostset added(ov) := True()
 
 //@ func sqlite.remove
+//@   params ctx db table where returning
 //@   nopaths
 //@   modifies nothing
 //@ func sqlite.DB.debugCtx
+//@   params db parent
 //@   nopaths
 //@   pure
 //@   ensures result != nil
 //@ func sqlite.debug
+//@   params ctx format a
 //@   nopaths
 //@   pure
 //@ func sqlite.DB.query
+//@   params db ctx table columns where into
 //@   nopaths
 //@   modifies into
 //@   ghostset dbread(db) := True()
 //@ func sqlite.DB.insertOrIgnore
+//@   params db ctx table kvs
 //@   nopaths
 //@   modifies nothing
 //@   ghostset dbinserted(db) := True()
 //@ spec ghost dbread, dbinserted
 //@ func sqlite.DB.insert
+//@   params db ctx table kvs upsertOnConflict
 //@   nopaths
 //@   modifies nothing
